@@ -158,12 +158,13 @@ Definition cstep_fun (cf : cfg) (ch : choice) : option cfg :=
           | None => None end
       | PLend c :: r =>
           match mstep (ms cf) t (ALend c) with
-          | Some s' => Some {| ms := s'; tc := upd (tc cf) t {| cur := Ret tt; rest := r; gh := g_lendout b0 (gh x); lt := c :: lt x |} |}
+          | Some s' => Some {| ms := s'; tc := upd (tc cf) t {| cur := Ret tt; rest := r; gh := g_lendout b0 (lt x) (gh x); lt := c :: lt x |} |}
           | None => None end
       | PJoinB c :: r =>
           match cur (gettc b0 cf c), rest (gettc b0 cf c), mstep (ms cf) t (AJoinB c) with
           | Ret tt, [], Some s' =>
-              Some {| ms := s'; tc := upd (tc cf) t {| cur := Ret tt; rest := r; gh := gh x; lt := List.remove Nat.eq_dec c (lt x) |} |}
+              Some {| ms := s'; tc := upd (tc cf) t {| cur := Ret tt; rest := r; gh := g_joinb b0 (List.remove Nat.eq_dec c (lt x)) (gh x);
+                                                     lt := List.remove Nat.eq_dec c (lt x) |} |}
           | _, _, _ => None end
       end
   | c =>
